@@ -1,3 +1,4 @@
+@current_adaptation.setter
 def spec(self, value):
     if value.shape[1:] == self.current_adaptation_.shape:
         self.current_adaptation_ = self.__batchreduce(value, 0)
